@@ -530,6 +530,9 @@ pub fn after_client_frame(sim: &mut Sim, c: usize) {
     // Local handling on a client app (listen-server style apps are checked by the C13 scenario set).
     let local_cev = std::mem::take(&mut sim.clients[c].app.world_mut().resource_mut::<Probe>().cev);
     let _ = local_cev;
+    if sim.verbose && !sev.is_empty() {
+        sim.trace_log.push(format!("    client {c} observed {:?}", sev.iter().map(|o| (o.kind, o.seq, o.update_tick)).collect::<Vec<_>>()));
+    }
     let up = sim.clients[c].sess.as_ref().map(|s| s.client_up).unwrap_or(false);
     if !up {
         if !sev.is_empty() {
